@@ -663,6 +663,46 @@ def shrink_history(impl, model, vbits, h, ops, key, budget=250):
     return ops
 
 
+def extend_to_violation(impl, h, ops, ans):
+    """Sharper failing-input search for a model/implementation disagreement that the monitor did not (yet) judge as a property
+    violation: the disagreeing history is extended by a bounded set of continuations aimed at the theorems (reuse of released
+    memory, empty-block policy, statistics, soft reset, exact refill of a block); the first continuation on which the
+    independent monitor (or a proved cache invariant on the reported digests) fires is the concrete failing input.
+    Returns (ops + continuation, line index, monitor text) or None."""
+    ge, bse = eff(h.g, h.bs)
+    na = sum(1 for o in ops if o[0] == "A")
+    ok = set()
+    j = 0
+    for i, o in enumerate(ops):
+        x = ans[i + 1] if i + 1 < len(ans) else ""
+        if o[0] == "A":
+            if x.startswith("A ok"):
+                ok.add(j)
+            j += 1
+        elif o[0] == "R" or (o[0] == "S" and o[2] == 0):
+            ok.discard(o[1])
+        elif o[0] in ("Z", "F"):
+            ok.clear()
+    rel_all = [("R", a) for a in sorted(ok)]
+    conts = []
+    for sz in (ge, 4 * ge, bse // 4, bse - ge, bse, 2 * bse):
+        conts.append([("A", sz), ("T",), ("R", na), ("T",), ("A", sz), ("T",), ("D",)])
+        conts.append(rel_all + [("T",), ("A", sz), ("A", sz), ("T",), ("R", na), ("R", na + 1), ("T",), ("A", sz), ("D",)])
+        conts.append([("Z", 0), ("T",), ("A", sz), ("R", na), ("A", sz), ("A", sz), ("T",), ("D",)])
+        conts.append(rel_all + [("Z", 0), ("T",), ("A", sz), ("T",), ("R", na), ("T",), ("D",)])
+    for c in conts:
+        hh = Hist(h.g, h.bs, h.opt, h.tag)
+        hh.ops = list(ops) + c
+        lines = hh.lines()
+        _rc, outi, _e = run_exe(impl, [], lines, timeout=60)
+        a2, mon = split_impl(outi)
+        mon = list(mon) + padding_queries(h.opt, lines, a2) + digest_invariants(h.opt, lines, a2)
+        if mon:
+            k, text = min(mon, key=lambda t: t[0])
+            return hh.ops, k, text
+    return None
+
+
 def own_regen(ck, name, text):
     """Translator tie restricted to C09's generated file (vlib.coq_regen recompiles every property's gen files): None if the
     text equals the committed coq/gen/<name>, else (gen_dir, failed_files, log) after recompiling it in a scratch gen dir."""
@@ -682,6 +722,51 @@ def own_regen(ck, name, text):
 
 def monitor_key(text):
     return text.split()[1]
+
+
+def digest_invariants(opt, lines, a):
+    """Sharper failing-input search: the search-cache invariants that are PROVED for the model (binv: bc_empty, bc_full, bc_incr,
+    bc_range) are evaluated on the block digest the implementation itself reports after every alloc/release/shrink. A broken
+    invariant is a concrete input with a named reason even when the monitor sees no property violation yet."""
+    out = []
+    if not a or not a[0].startswith("H "):
+        return out
+    t0 = a[0].split()
+    if len(t0) < 5 or t0[2] == "0":
+        return out
+    g0 = int(t0[3])
+    pad = 0 if opt & NOPAD else 1
+    area_of = {}
+    for i in range(1, min(len(lines), len(a))):
+        l, x = lines[i].split(), a[i].split()
+        if not x or x[0] in ("P", "CRASH") or len(x) < 2 or x[1] == "crash":
+            break
+        d = None
+        if l[0] == "A" and x[1] == "ok" and len(x) >= 12:
+            blk = x[2]; area_of[blk] = int(x[10]) // (g0 << int(x[11])); d = x[5:10]
+        elif l[0] == "R" and x[1] == "ok" and len(x) >= 8 and x[3] != "deleted":
+            blk = x[2]; d = x[3:8]
+        elif l[0] == "S" and len(x) >= 9 and x[4] != "deleted" and x[1] == "ok":
+            blk = x[3]; d = x[4:9]
+        elif l[0] == "Z":
+            area_of = {}
+        if d is None or blk not in area_of:
+            continue
+        ss, se, lg, f, au = (int(v) for v in d)
+        area = area_of[blk]
+        why = None
+        if not (0 <= ss <= area and 0 <= se <= area):
+            why = "search window outside the block (bc_range)"
+        elif bool(f & 1) != (au == pad):
+            why = "kFlagEmpty %s but area_used = %d, padding = %d (bc_empty)" % ("set" if f & 1 else "clear", au, pad)
+        elif au == area and not (ss == area and se == 0 and lg == 0 and not (f & 4) and not (f & 2)):
+            why = "full block with search_start=%d search_end=%d largest=%d flags=%d (bc_full)" % (ss, se, lg, f)
+        elif (f & 4) and not (se == area and lg == area - ss and au == ss):
+            why = "incremental block with search_start=%d search_end=%d largest=%d area_used=%d area=%d (bc_incr)" % (ss, se, lg, au, area)
+        if why:
+            out.append((i, "!V digest-invariant hist=- op=%d block %s after `%s`: %s" % (i, blk, lines[i], why)))
+            break
+    return out
 
 
 def count_branch(stats, lines, a, i, seen_blocks):
@@ -768,7 +853,7 @@ def judge_history(ck, h, hi, a, mo, m, n, present, stats):
     # monitor reports of this history (always judged, also when model and implementation agree)
     reported = False
     explained_at = set()
-    mo = list(mo) + padding_queries(h.opt, lines, a)
+    mo = list(mo) + padding_queries(h.opt, lines, a) + digest_invariants(h.opt, lines, a)
     for (k, text) in mo:
         key = monitor_key(text)
         slug = None
@@ -811,10 +896,27 @@ def judge_history(ck, h, hi, a, mo, m, n, present, stats):
                 small = shrink_history(stats["impl"], stats["model"], stats["vbits"], h, h.ops[:i], None)
                 hh = Hist(h.g, h.bs, h.opt, h.tag); hh.ops = small
                 rp = dict(rp, history=hh.lines(), original_length=i)
+            ext = None
+            xkey = "C09/extended/" + lines[i][0]
+            if xkey not in stats["shrunk"]:
+                stats["shrunk"].add(xkey)
+                ext = extend_to_violation(stats["impl"], h, h.ops[:i], a)
+            if ext is not None:
+                eops, ek, etext = ext
+                hh = Hist(h.g, h.bs, h.opt, h.tag); hh.ops = eops
+                el = hh.lines()
+                ck.violation("C09/" + monitor_key(etext),
+                             "independent monitor on the real allocator, on a continuation of the disagreeing history: %s  "
+                             "[config %s, history %s extended after op %d, failing op %d: %s]"
+                             % (etext, lines[0], h.tag, i, ek, el[ek] if 0 <= ek < len(el) else "?"),
+                             dict(replay, history=el[:ek + 1] + ["X"], monitor=etext, disagreement_at=i))
             ck.violation("C09/correspondence/" + lines[i][0],
                          "implementation and proven model disagree at op %d (%s) of a %s history with config %s: impl %r, model %r; "
-                         "the independent monitor reported no property violation in this history"
-                         % (i, lines[i], h.tag, lines[0], a[i], m[i]), rp, no_input=True)
+                         "the independent monitor reported no property violation in this history%s"
+                         % (i, lines[i], h.tag, lines[0], a[i], m[i],
+                            "" if ext is None else "; continued, the history violates the property: after the operations %s the monitor reports %s"
+                            % (" / ".join(el[i + 1:ek + 1]), etext)),
+                         rp if ext is None else dict(rp, failing_continuation=el[:ek + 1] + ["X"], monitor=etext), no_input=(ext is None))
     return compared
 
 
